@@ -119,7 +119,7 @@ static void do_exec(int k, int prio, int dur_us, bool cb) {
     auto done = [k, r] { emit(J("cb") + kv("t", k) + kb("main", is_main()) + "}"); r->cb++; };
     CallGuard cg;
     // the "exec" event is emitted inside execute() by the hook; the cb flag is emitted just before as its own event
-    emit(J("submit") + kv("t", k) + kb("cb", cb) + kv("prio", prio) + "}");
+    emit(J("submit") + kv("t", k) + kb("cb", cb) + kv("prio", g_work ? -2 : prio) + "}");   // WorkThread: one FIFO queue (level 0)
     if (g_work) { if (cb) r->tok = g_work->execute(body, done); else r->tok = g_work->execute(body); }
     else if (cb) r->tok = g_pool->execute(body, done, prio); else r->tok = g_pool->execute(body, prio);
     r->accepted = !r->tok.isNull();
